@@ -2,8 +2,12 @@ package main
 
 import (
 	"context"
+	"io/ioutil"
 	"math/rand"
+	"path/filepath"
+	"regexp"
 	"runtime"
+	"strconv"
 
 	protocol "github.com/hujm2023/go-sms-protocol"
 	"github.com/hujm2023/go-sms-protocol/cmpp"
@@ -285,3 +289,30 @@ func runFuzz(c Case, tr *Tracer) {
 }
 
 var _ = rand.Int
+
+var corpusSel = regexp.MustCompile(`(?m)^uint16\((\d+)\)$`)
+var corpusData = regexp.MustCompile(`(?m)^\[\]byte\((".*")\)$`)
+
+// loadFuzzCorpus turns the files of a `go test -fuzz FuzzDecode` corpus into fuzz cases
+func loadFuzzCorpus(dir string) []Case {
+	names := append(append([]string{}, typeNames...), auxNames...)
+	files, _ := filepath.Glob(filepath.Join(dir, "*"))
+	var out []Case
+	for _, fn := range files {
+		b, err := ioutil.ReadFile(fn)
+		if err != nil {
+			continue
+		}
+		ms, md := corpusSel.FindSubmatch(b), corpusData.FindSubmatch(b)
+		if ms == nil || md == nil {
+			continue
+		}
+		sel, _ := strconv.Atoi(string(ms[1]))
+		data, err := strconv.Unquote(string(md[1]))
+		if err != nil {
+			continue
+		}
+		out = append(out, Case{"fn": names[sel%len(names)], "in": S(data)})
+	}
+	return out
+}
